@@ -4,6 +4,7 @@ pub mod c03;
 pub mod c04;
 pub mod c05;
 pub mod c06;
+pub mod c10;
 
 use crate::report::{Report, Tier};
 use serde_json::Value;
@@ -108,6 +109,14 @@ pub fn plan(id: &str) -> Option<Plan> {
             assumptions: BASE_ASSUMPTIONS.to_vec(),
             floor: 50,
             engines: vec![Engine { name: "sim", salt: 1, quick: 6000, thorough: 400_000, serial: false, run: Box::new(|s, t| c06::scenario(s, t)) }],
+            extra: None,
+        },
+        "C10" => Plan {
+            id: "C10",
+            rule: "scenario = cache (LRU/LFU/FIFO or default policy, max_size 1-4, TTL none/10ms/1s, private or shared store, 1-2 services) + 20-120 requests over 3-6 keys (one hot key) with ok/err outcomes, gaps of 0/1ms/TTL-1ms/TTL/TTL+1ms, overlapping misses on one key, cancelled misses, then a closing probe of every key; every response carries a fresh serial; a forking reference cache is driven by the log (lookup at call(), insertion when a miss resolves Ok); non-trivial iff >=1 hit happened after an eviction or expiry; distinct = (inner calls, outcomes, config) signature",
+            assumptions: BASE_ASSUMPTIONS.to_vec(),
+            floor: 50,
+            engines: vec![Engine { name: "sim", salt: 1, quick: 4000, thorough: 200_000, serial: false, run: Box::new(|s, t| c10::scenario(s, t)) }],
             extra: None,
         },
         _ => return None,
